@@ -1158,7 +1158,14 @@ struct NetWorld {
     tcp: std::net::SocketAddr,
     atcp: std::net::SocketAddr,
     ws: std::net::SocketAddr,
+    /// blocking / async TCP servers configured with a short READ TIMEOUT (the knob is off by default)
+    tcprt: std::net::SocketAddr,
+    atcprt: std::net::SocketAddr,
+    /// how often the handler of `/smuggled` ran on those two servers: no op ever sends a frame addressed to it
+    smuggled: std::sync::Arc<std::sync::atomic::AtomicU64>,
 }
+
+const READ_TIMEOUT_MS: u64 = 30;
 
 fn net_world() -> NetWorld {
     let rt = tokio::runtime::Builder::new_multi_thread().worker_threads(3).enable_all().build().unwrap();
@@ -1187,7 +1194,29 @@ fn net_world() -> NetWorld {
         });
         a
     });
-    NetWorld { rt, tcp, atcp, ws }
+    let smuggled = std::sync::Arc::new(std::sync::atomic::AtomicU64::new(0));
+    let mk_rt = |c: std::sync::Arc<std::sync::atomic::AtomicU64>| {
+        mk().with_json("/smuggled", move |_v| {
+            c.fetch_add(1, std::sync::atomic::Ordering::SeqCst);
+            Ok(serde_json::json!("smuggled"))
+        })
+    };
+    let l = std::net::TcpListener::bind("127.0.0.1:0").unwrap();
+    let tcprt = l.local_addr().unwrap();
+    let srv = repe::Server::new(mk_rt(smuggled.clone())).read_timeout(Some(std::time::Duration::from_millis(READ_TIMEOUT_MS)));
+    std::thread::spawn(move || {
+        let _ = srv.serve(l);
+    });
+    let r4 = mk_rt(smuggled.clone());
+    let atcprt = rt.block_on(async {
+        let l = tokio::net::TcpListener::bind("127.0.0.1:0").await.unwrap();
+        let a = l.local_addr().unwrap();
+        tokio::spawn(async move {
+            let _ = repe::AsyncServer::new(r4).read_timeout(Some(std::time::Duration::from_millis(READ_TIMEOUT_MS))).serve(l).await;
+        });
+        a
+    });
+    NetWorld { rt, tcp, atcp, ws, tcprt, atcprt, smuggled }
 }
 
 /// Send `bs` to a real endpoint (or answer a real client's call with it) and report whether anything panicked
@@ -1334,6 +1363,51 @@ fn exec_net(out: &mut Out, w: &NetWorld, line: &str) -> (String, bool) {
                 out.oracle_fail(&format!("parse.net.{}.call_hung", ep), "a call answered with hostile bytes did not return within its own timeout", &[line.to_string()]);
             }
         }
+        // a server with a read timeout and a sender that stalls INSIDE a frame for longer than that timeout, at offsets
+        // where the rest of the stream begins with a complete well-formed request frame to the counting route `/smuggled`
+        // (id 99).  Whatever the server does at the timeout (close, or finish the same frame), it must never take up
+        // reading in the middle of a frame: nothing embedded is dispatched or answered.
+        "tcprt" | "atcprt" => {
+            let addr = if ep == "tcprt" { w.tcprt } else { w.atcprt };
+            let splits: Vec<usize> = ws_.get(5).map(|x| x.split(',').filter_map(|t| t.parse().ok()).collect()).unwrap_or_default();
+            let stall = std::time::Duration::from_millis(ws_.get(6).and_then(|x| x.parse().ok()).unwrap_or(4 * READ_TIMEOUT_MS));
+            let count0 = w.smuggled.load(std::sync::atomic::Ordering::SeqCst);
+            let mut got = Vec::new();
+            if let Ok(mut s) = std::net::TcpStream::connect(addr) {
+                let _ = s.set_nodelay(true);
+                let mut at = 0usize;
+                for &sp in splits.iter().chain(std::iter::once(&bs.len())) {
+                    let sp = sp.min(bs.len());
+                    if sp > at {
+                        if s.write_all(&bs[at..sp]).is_err() { break; }
+                        at = sp;
+                    }
+                    if at < bs.len() { std::thread::sleep(stall); }
+                }
+                let _ = s.shutdown(std::net::Shutdown::Write);
+                got = repe_verif_harness::net::drain(&mut s, 1 << 20, std::time::Duration::from_millis(400));
+            }
+            // give a dispatch that is still in flight on the server a moment to show
+            std::thread::sleep(std::time::Duration::from_millis(20));
+            let answered_99 = RawFrame::split_stream(&got).0.iter().any(|f| f.h.id == 99);
+            let ran = w.smuggled.load(std::sync::atomic::Ordering::SeqCst) != count0;
+            if answered_99 || ran {
+                out.oracle_fail(&format!("parse.net.{}.embedded_frame_dispatched", ep), &format!("after a stall inside a frame (read timeout {} ms, stall {} ms at offsets {:?}) bytes INSIDE that frame were read as a frame of their own: handler ran {}, response for the embedded id arrived {}", READ_TIMEOUT_MS, stall.as_millis(), splits, ran, answered_99), &[line.to_string()]);
+            }
+            // the server must still answer a fresh connection
+            alive = false;
+            if let Ok(mut s) = std::net::TcpStream::connect(addr) {
+                let _ = s.set_read_timeout(Some(std::time::Duration::from_secs(10)));
+                if s.write_all(&ping).is_ok() {
+                    let mut buf = Vec::new();
+                    let mut tmp = [0u8; 4096];
+                    while RawFrame::parse_prefix(&buf).is_none() {
+                        match s.read(&mut tmp) { Ok(0) | Err(_) => break, Ok(n) => buf.extend_from_slice(&tmp[..n]) }
+                    }
+                    alive = RawFrame::parse_prefix(&buf).map(|(f, _)| f.h.id == 77 && f.h.ec == 0).unwrap_or(false);
+                }
+            }
+        }
         // the WebSocket proxy entry point (`proxy_connection`): one inbound binary message = one frame, forwarded upstream
         "wsproxy" => {
             let upstream_addr = w.atcp;
@@ -1414,6 +1488,54 @@ fn exec_net(out: &mut Out, w: &NetWorld, line: &str) -> (String, bool) {
     (format!("{} survived", idx), false)
 }
 
+/// Frames sent in 2–3 pieces to the servers that have a read timeout, with a stall (longer than the timeout) at an offset
+/// chosen so that the REST of the stream begins with a complete well-formed request frame (id 99, `/smuggled`):
+/// inside the header (offset 40: the outer header's last 8 bytes double as the embedded `length` field), at 48 (the outer
+/// query is the embedded frame), inside the query, at the query/body boundary, inside the body.
+fn gen_stall(r: &mut Rng, n: usize) -> Vec<String> {
+    let mut ops = Vec::new();
+    for i in 0..n {
+        let ebody = { let l = r.below(24) as usize; r.bytes(l) };
+        let emb = RawFrame::request(99, r.chance(1, 3), 1, b"/smuggled", 2, if r.chance(1, 2) { b"null" } else { &ebody[..] }).to_vec();
+        let junk = |r: &mut Rng, lo: u64, hi: u64| { let l = r.range(lo, hi) as usize; r.bytes(l) };
+        let (frame, pos): (Vec<u8>, usize) = match r.below(5) {
+            0 => {
+                // stall at 40, inside the header
+                let l = emb.len() as u64;
+                let mut f = RawFrame::request(1, false, (l & 0xffff) as u16, &emb[8..], ((l >> 16) & 0xffff) as u16, &junk(r, 0, 20));
+                f.h.ec = (l >> 32) as u32;
+                (f.to_vec(), 40)
+            }
+            1 => (RawFrame::request(1, false, 1, &emb, 2, &junk(r, 0, 40)).to_vec(), 48),
+            2 => {
+                let k = junk(r, 1, 30);
+                let mut q = k.clone();
+                q.extend_from_slice(&emb);
+                (RawFrame::request(1, false, 1, &q, 2, &junk(r, 0, 40)).to_vec(), 48 + k.len())
+            }
+            3 => (RawFrame::request(1, false, 1, b"/ping", 2, &{ let mut b = emb.clone(); b.extend(junk(r, 0, 30)); b }).to_vec(), 48 + 5),
+            _ => {
+                let k = junk(r, 1, 60);
+                let mut b = k.clone();
+                b.extend_from_slice(&emb);
+                b.extend(junk(r, 0, 30));
+                (RawFrame::request(1, false, 1, b"/ping", 2, &b).to_vec(), 48 + 5 + k.len())
+            }
+        };
+        // the critical stall alone, or with one more stall before / after it; now and then no stall at all (control)
+        let mut splits = vec![pos];
+        match r.below(6) {
+            0 => splits.insert(0, r.below(pos as u64) as usize),
+            1 => splits.push(pos + 1 + r.below((frame.len() - pos) as u64) as usize),
+            _ => {}
+        }
+        let stall_ms = if r.chance(1, 8) { 0 } else { *r.pick(&[4 * READ_TIMEOUT_MS, 5 * READ_TIMEOUT_MS, 7 * READ_TIMEOUT_MS]) };
+        let sp: Vec<String> = splits.iter().map(|x| x.to_string()).collect();
+        ops.push(format!("net st{} {} {} 0 {} {}", i, if i % 2 == 0 { "tcprt" } else { "atcprt" }, hex(&frame), sp.join(","), stall_ms));
+    }
+    ops
+}
+
 fn gen_net(r: &mut Rng, n: usize) -> Vec<String> {
     let inputs = gen_parse_inputs(r, n);
     let eps = ["tcp", "atcp", "ws", "client", "aclient", "wsclient", "wsproxy"];
@@ -1422,6 +1544,7 @@ fn gen_net(r: &mut Rng, n: usize) -> Vec<String> {
         let suffix = match i % 4 { 0 => vec![], 1 => vec![0], 2 => RawFrame::request(1, false, 1, b"/x", 2, b"7").to_vec(), _ => { let l = 1 + r.below(40) as usize; r.bytes(l) } };
         ops.push(format!("net e{} wsecho {}", i, hex(&suffix)));
     }
+    ops.extend(gen_stall(r, (n / 15).max(16)));
     // a well-formed request to a registered route followed by trailing bytes / a second frame, as ONE WebSocket message:
     // the exact-length rule says it must not be served
     for i in 0..(n / 12).max(12) {
